@@ -123,4 +123,174 @@ theorem maxSize_exact (c : Container) :
           obtain ⟨t, ht, hs⟩ := sumWith_spec agree _ 0 s h1
           exact ⟨t, ht, by rw [a2.1, hs]; simp⟩
 
+/-! ### completeness: a representable true maximum is always reported -/
+
+theorem cAdd_of_lt {x y : Nat} (h : x + y < usizeLimit) : cAdd x y = .ok (x + y) := by
+  simp [cAdd, h]
+theorem cMul_of_lt {x y : Nat} (h : x * y < usizeLimit) : cMul x y = .ok (x * y) := by
+  simp [cMul, h]
+
+/-- `f` reports every bound of `g` that fits the address space -/
+def Complete (f : Name → MaxRes) (g : Name → SpecSize) : Prop :=
+  ∀ e k, g e = .fin k → k < usizeLimit → f e = .ok k
+
+theorem SpecSize.bind_eq_fin {x : SpecSize} {f : Nat → SpecSize} {n : Nat}
+    (h : x.bind f = .fin n) : ∃ a, x = .fin a ∧ f a = .fin n := by
+  cases x with
+  | fin a => exact ⟨a, rfl, h⟩
+  | unbounded => simp [SpecSize.bind] at h
+  | missing d => simp [SpecSize.bind] at h
+
+theorem sumWith_complete {f : Name → MaxRes} {g : Name → SpecSize} (h : Complete f g) :
+    ∀ (es : List Name) (acc t : Nat), specSum g es = .fin t → acc + t < usizeLimit →
+      sumWith f es acc = .ok (acc + t) := by
+  intro es
+  induction es with
+  | nil => intro acc t ht _; simp [specSum] at ht; subst ht; simp [sumWith]
+  | cons e es ih =>
+    intro acc t ht hlt
+    simp only [specSum] at ht
+    obtain ⟨a, ha, h2⟩ := SpecSize.bind_eq_fin ht
+    obtain ⟨b, hb, h3⟩ := SpecSize.bind_eq_fin h2
+    simp at h3; subst h3
+    simp only [sumWith]
+    rw [h e a ha (by omega)]
+    simp only [Res.bind]
+    rw [cAdd_of_lt (by omega)]
+    simp only []
+    rw [ih (acc + a) b hb (by omega)]
+    congr 1; omega
+
+theorem maxWith_complete {f : Name → MaxRes} {g : Name → SpecSize} (h : Complete f g) :
+    ∀ (es : List Name) (acc t : Nat), specMaxOf g es = .fin t → t < usizeLimit →
+      maxWith f es acc = .ok (max acc t) := by
+  intro es
+  induction es with
+  | nil => intro acc t ht _; simp [specMaxOf] at ht; subst ht; simp [maxWith]
+  | cons e es ih =>
+    intro acc t ht hlt
+    simp only [specMaxOf] at ht
+    obtain ⟨a, ha, h2⟩ := SpecSize.bind_eq_fin ht
+    obtain ⟨b, hb, h3⟩ := SpecSize.bind_eq_fin h2
+    simp at h3; subst h3
+    simp only [maxWith]
+    rw [h e a ha (by omega)]
+    simp only [Res.bind]
+    rw [ih (max acc a) b hb (by omega)]
+    congr 1; omega
+
+/-- whenever the specification's maximum times the multiplier fits the address space, the
+implementation reports exactly that (no spurious Overflow / Recursion / Missing) -/
+theorem maxSize_complete (c : Container) :
+    ∀ (fuel count : Nat) (d : Name) (path : List Name) (m : Nat),
+      specMax c fuel d path = .fin m → 0 < count → count * m < usizeLimit →
+        maxSize c fuel count d path = .ok (count * m) := by
+  intro fuel
+  induction fuel with
+  | zero => intro count d path m h; simp [specMax] at h
+  | succ fuel ih =>
+    intro count d path m h hc hlt
+    have hm_le : m ≤ count * m := Nat.le_mul_of_pos_left m hc
+    have comp : Complete (fun e => maxSize c fuel 1 e (d :: path)) (fun e => specMax c fuel e (d :: path)) := by
+      intro e k hk hkl
+      have := ih 1 e (d :: path) k hk (by omega) (by simpa using hkl)
+      simpa using this
+    simp only [specMax] at h
+    simp only [maxSize]
+    split at h
+    · simp at h
+    · rename_i hp
+      simp only [hp, Bool.false_eq_true, if_false]
+      split at h
+      · simp at h
+      · -- primitive
+        rename_i size hg
+        simp only [hg]
+        simp at h; subst h
+        split
+        · rename_i hz; subst hz; simp
+        · rw [cMul_of_lt (by rw [Nat.mul_comm]; exact hlt), Nat.mul_comm]
+      · -- sequence
+        rename_i lw lo hi elem hg
+        simp only [hg]
+        by_cases hz : hi = 0
+        · simp only [hz, if_true] at h ⊢
+          simp at h; subst h
+          simp only [Res.bind]
+          rw [cAdd_of_lt (by omega)]
+          simp only []
+          rw [cMul_of_lt (by simpa using hlt)]
+          simp
+        · simp only [hz, if_false] at h ⊢
+          obtain ⟨n, hn, h2⟩ := SpecSize.bind_eq_fin h
+          simp at h2; subst h2
+          have hhi : 0 < hi := Nat.pos_of_ne_zero hz
+          rw [ih hi elem (d :: path) n hn hhi (by omega)]
+          simp only [Res.bind]
+          rw [cAdd_of_lt (by omega)]
+          simp only []
+          rw [cMul_of_lt (by rw [Nat.add_comm]; exact hlt)]
+          congr 1; rw [Nat.add_comm]
+      · -- tuple
+        rename_i elems hg
+        simp only [hg]
+        rw [sumWith_complete comp elems 0 m h (by omega)]
+        simp only [Res.bind, Nat.zero_add]
+        rw [cMul_of_lt hlt]
+      · -- enum
+        rename_i tw variants hg
+        simp only [hg]
+        obtain ⟨t, ht, h2⟩ := SpecSize.bind_eq_fin h
+        simp at h2; subst h2
+        rw [maxWith_complete comp _ 0 t ht (by omega)]
+        simp only [Res.bind, Nat.zero_max]
+        rw [cAdd_of_lt (by omega)]
+        simp only []
+        rw [cMul_of_lt (by rw [Nat.add_comm]; exact hlt)]
+        congr 1; rw [Nat.add_comm]
+      · -- struct
+        rename_i fields hg
+        simp only [hg]
+        cases fields with
+        | empty =>
+          simp [Fields.decls, specSum] at h; subst h; simp
+        | named fs =>
+          simp only
+          rw [sumWith_complete comp _ 0 m h (by omega)]
+          simp only [Res.bind, Nat.zero_add]
+          rw [cMul_of_lt hlt]
+        | unnamed fs =>
+          simp only
+          rw [sumWith_complete comp _ 0 m h (by omega)]
+          simp only [Res.bind, Nat.zero_add]
+          rw [cMul_of_lt hlt]
+
+/-- every reported bound fits the address space (it is zero or the result of a checked product) -/
+theorem maxSize_ok_lt (c : Container) (fuel count : Nat) (d : Name) (path : List Name) (n : Nat)
+    (h : maxSize c fuel count d path = .ok n) : n < usizeLimit := by
+  have hpos : 0 < usizeLimit := by decide
+  cases fuel with
+  | zero => simp [maxSize] at h
+  | succ fuel =>
+    simp only [maxSize] at h
+    split at h
+    · simp at h
+    · split at h
+      · simp at h
+      · split at h
+        · simp at h; omega
+        · exact (cMul_ok h).1 ▸ (cMul_ok h).2
+      · obtain ⟨sz, _, h2⟩ := Res.bind_eq_ok h
+        obtain ⟨s, _, h4⟩ := Res.bind_eq_ok h2
+        exact (cMul_ok h4).1 ▸ (cMul_ok h4).2
+      · obtain ⟨mx, _, h2⟩ := Res.bind_eq_ok h
+        obtain ⟨s, _, h4⟩ := Res.bind_eq_ok h2
+        exact (cMul_ok h4).1 ▸ (cMul_ok h4).2
+      · obtain ⟨s, _, h2⟩ := Res.bind_eq_ok h
+        exact (cMul_ok h2).1 ▸ (cMul_ok h2).2
+      · split at h
+        · simp at h; omega
+        · obtain ⟨s, _, h2⟩ := Res.bind_eq_ok h
+          exact (cMul_ok h2).1 ▸ (cMul_ok h2).2
+
 end Borsh
